@@ -257,6 +257,10 @@ def h_set(it, args, kw, node):
         from .values import SSet
 
         return SSet(args[0].term)
+    if not args and getattr(it, "symbolic_set_sort", None) is not None:
+        from .values import SSet
+
+        return SSet(z3.EmptySet(it.symbolic_set_sort))  # sets of object identities
     items = it.iterate(args[0], node) if args else []
     if contains_symbolic(items):
         it.outside("set() of symbolic items", node)
@@ -283,6 +287,8 @@ def h_dict(it, args, kw, node):
 def h_id(it, args, kw, node):
     v = args[0]
     if isinstance(v, SObj):
+        if "__id__" in v.fields:
+            return v.fields["__id__"]  # symbolic identity (injective by the contract's assumption)
         return 10_000_000 + v.uid
     return id(v)
 
@@ -386,6 +392,14 @@ def call_pseudo(it, bm, args, kw, node):
     if what == "sset":
         from .values import SSet
 
+        if name in ("add", "discard") and len(args) == 1 and sym.is_intlike(args[0]):
+            t = sym.to_z3(sym.to_int(args[0]))
+            v.term = z3.SetAdd(v.term, t) if name == "add" else z3.SetDel(v.term, t)
+            return None
+        if name in ("difference_update", "update", "intersection_update") and len(args) == 1 and isinstance(args[0], SSet):
+            f = {"difference_update": z3.SetDifference, "update": z3.SetUnion, "intersection_update": z3.SetIntersect}[name]
+            v.term = f(v.term, args[0].term)
+            return None
         if name == "add" and len(args) == 1:
             t = ops.str_term(args[0])
             if t is None:
